@@ -70,7 +70,52 @@ func (fr *Frame) freshResult(s *State, g *Term, prefix string, sig *types.Signat
 	return r
 }
 
+// applyAtCalls: the `atcall` clauses of the function being verified that name this callee (interference at lock
+// acquisition): havoc, count, then assume, in that order.
+func (fr *Frame) applyAtCalls(s *State, g *Term, key string) {
+	top := fr
+	for top.parent != nil && !top.top {
+		top = top.parent
+	}
+	if top.contract == nil || len(top.contract.AtCalls) == 0 {
+		return
+	}
+	x := fr.x
+	c := x.c
+	for _, phase := range []string{"atcall-havoc", "atcall-count", "atcall-assume"} {
+		for _, ac := range top.contract.AtCalls {
+			if ac.Kind != phase || !strings.HasSuffix(key, ac.CbName) {
+				continue
+			}
+			switch phase {
+			case "atcall-havoc":
+				pre := s.clone()
+				ts := top.evalTargets(ac, pre, nil, nil)
+				fr.havocTargets(s, pre, ts, g)
+				x.bindHavocBound(s.alloc)
+				x.note("interference: state protected by a lock is arbitrary (within the stated invariant) each time the lock is acquired in " + shortKey(top.key))
+			case "atcall-count":
+				name := strings.TrimSpace(ac.Text)
+				if v, ok := s.ghost[name]; ok && bvWidth(v.sort) > 0 {
+					s.ghost[name] = c.BVBin("bvadd", v, c.BV(1, bvWidth(v.sort)))
+				}
+			case "atcall-assume":
+				x.assume(g, top.evalClauseAt(ac, s, nil, nil))
+			}
+		}
+	}
+}
+
 func (fr *Frame) havocAll(s *State, g *Term, why string) {
+	// a `closed` contract accounts for every call the function makes (its effect counters are only meaningful then):
+	// code of unknown effect is an obligation that cannot be discharged
+	top := fr
+	for top.parent != nil && !top.top {
+		top = top.parent
+	}
+	if top.contract != nil && top.contract.Closed && !fr.spec {
+		fr.oblige("closed", "", token.NoPos, g, fr.x.c.False(), why+": every call made by a function with a `closed` contract needs a contract, a model or to be effect free")
+	}
 	pre := s.clone()
 	fr.havocTargets(s, pre, []target{{kind: "all"}}, g)
 	na := fr.x.c.Fresh("alloc", SInt)
@@ -127,6 +172,9 @@ func (fr *Frame) callWithArgs(s *State, g *Term, call *ssa.CallCommon, ins ssa.I
 		key := funcKey(callee)
 		if r, ok := fr.vocabularyCall(s, callee, args); ok {
 			return r
+		}
+		if !fr.spec {
+			fr.applyAtCalls(s, g, key)
 		}
 		if m := lookupModel(key); m != nil {
 			return m.apply(fr, s, g, call, args, pos)
@@ -366,6 +414,9 @@ func (fr *Frame) applyContract(s *State, g *Term, fc *FuncContract, callee *ssa.
 	cf.declareGhosts()
 	// instances of the callee's rigid ghosts chosen by the caller's contract
 	for _, gcl := range fc.Ghosts {
+		if gcl.Text != "" {
+			continue // an initialised ghost is the callee's own counter: local to the call (see below)
+		}
 		bound := false
 		for top := fr; top != nil; top = top.parent {
 			if top.contract == nil {
@@ -470,9 +521,26 @@ func (fr *Frame) applyContract(s *State, g *Term, fc *FuncContract, callee *ssa.
 		x.assumeWF(g, res, rt, s)
 		bindResults(extra, sig, res)
 	}
+	// the callee's own (initialised) ghost counters are local to the call: its ensures clauses speak about their
+	// final values, which are unknown here; the caller's ghosts of the same name are not touched by that
+	savedGhost := map[string]*Term{}
+	for _, gcl := range fc.Ghosts {
+		if gcl.Text == "" {
+			continue
+		}
+		savedGhost[gcl.Ghost] = s.ghost[gcl.Ghost]
+		s.ghost[gcl.Ghost] = c.Fresh("callee_"+gcl.Ghost, x.ghostSort(cf.ghostTypes[gcl.Ghost]))
+	}
 	for _, e := range fc.Ensures {
 		t := cf.evalClauseAt(e, s, nil, extra)
 		x.assume(g, t)
+	}
+	for name, v := range savedGhost {
+		if v == nil {
+			delete(s.ghost, name)
+		} else {
+			s.ghost[name] = v
+		}
 	}
 	for _, ce := range fc.CondEffects {
 		if v, ok := s.ghost[ce.Ghost]; ok && bvWidth(v.sort) > 0 {
